@@ -782,6 +782,36 @@ func (in *Instance) CheckHeader() []string {
 	return out
 }
 
+// CheckHeaderParams compares parameter lists only.
+func (in *Instance) CheckHeaderParams() []string {
+	var out []string
+	var hn []string
+	for n := range in.Helpers {
+		hn = append(hn, n)
+	}
+	sort.Strings(hn)
+	for _, n := range hn {
+		obj := in.Pkg.Scope().Lookup(n)
+		exp := in.Pkg.Scope().Lookup(Mark + "sig_" + n)
+		if obj == nil || exp == nil {
+			continue
+		}
+		a, ok1 := obj.Type().(*types.Signature)
+		b, ok2 := exp.Type().(*types.Signature)
+		if !ok1 || !ok2 {
+			continue
+		}
+		same := a.Params().Len() == b.Params().Len() && a.Variadic() == b.Variadic()
+		for i := 0; same && i < a.Params().Len(); i++ {
+			same = types.Identical(a.Params().At(i).Type(), b.Params().At(i).Type())
+		}
+		if !same {
+			out = append(out, fmt.Sprintf("emitted parameters of %s are %s, the call passes %s", n, a.Params(), b.Params()))
+		}
+	}
+	return out
+}
+
 func sameSig(a, b *types.Signature) bool {
 	if a.Params().Len() != b.Params().Len() || a.Results().Len() != b.Results().Len() || a.Variadic() != b.Variadic() {
 		return false
